@@ -46,15 +46,20 @@ CONFIG = {
             "lengths 3-5 / 254-257 bytes in ASCII and multi-byte; b64: random byte strings encoded in both alphabets, then single "
             "edits (padding, whitespace, foreign bytes, mixed alphabets, other trailing bits), bounded-exhaustive texts over "
             "`A Q / + - _ = LF`, JSON string spellings; limits: every field at (code points, bytes) pairs on both sides of 255 x JSON "
-            "lengths 65535/65536/65537 x 16 versions x 3 entry points, random combinations, malformed IDs; vertable: one op per "
+            "lengths 65535/65536/65537 x 16 versions x 3 entry points, random combinations, malformed IDs, CREATE events of the "
+            "domain-less room versions carrying a room_id member of every (code points, bytes) size (parse paths; Build refuses any room ID "
+            "there), and limits.receipt_text: receipt of whole event texts in which an over-long type / state_key / sender / room_id stands "
+            "beside a short case variant of the name (the specification reads the limits off the exact members of the JSON; such texts are "
+            "refused since 37131f6); vertable: one op per "
             "(version, probe). An op is non-trivial when its argument is not a pool constant shorter than 4 bytes; distinct by op line",
     "nontrivial": lambda op, impl: len(op) > 24,
     "trusted": COMMON_TRUSTED + [
         "Go std lib modelled, not verified: net.ParseIP (VModel.Ident.parseIP: proved equal to the RFC 4291 / dotted-quad recogniser for all byte strings, V.C17.parseIP_accept_iff_literal; that it models Go's netip.ParseAddr is "
         "tied by ident.parseip / ident.isip ops), strconv.ParseUint(s,10,16), encoding/base64 Raw{Std,URL}Encoding, encoding/json string "
         "(un)quoting for Base64Bytes.(Un)MarshalJSON, regexp (two anchored character-class patterns, regenerated source text compared)",
-        "limits: JSON decoding, content hashing and EventBuilder marshalling are outside the model; the harness submits canonical, "
-        "correctly hashed events whose byte length it controls",
+        "limits: JSON decoding, content hashing and EventBuilder marshalling are outside the size model; the harness submits canonical, "
+        "correctly hashed events whose byte length it controls (limits.receipt_text goes through the event-constructor model "
+        "VModel.EventParse.parseUntrusted instead)",
         "vertable: function-valued columns are identified by function NAME in the regenerated table; name -> behaviour is tied by one probe "
         "per (version, column) through the public API",
     ],
